@@ -671,6 +671,7 @@ impl World for C13 {
                 "clamped-restore-clamped-something",
                 "owned-conversion-same-allocation",
                 "crash-point-fired",
+                "canary-behind-the-buffer-checked",
             ],
             expected_faults: vec!["unwind@guard", "leak", "unwind@convert(k)"],
             time_note: "palette has no clock; simulated time is reported as steps_executed",
@@ -714,9 +715,23 @@ macro_rules! exec_layout {
             }
             // the model starts from what the typed buffer really holds
             let mut model_words = $readout(&owner);
+            // canary behind the last element (the spare capacity): an in-place conversion must never write there
+            owner.canary_fill();
             for (n, ep) in episodes.iter().enumerate() {
                 if ctx.failed() {
                     return;
+                }
+                if n > 0 {
+                    ctx.checked();
+                    let damage = owner.canary_damage();
+                    if damage > 0 {
+                        ctx.fail(
+                            "out-of-bounds-write",
+                            &format!("out-of-bounds-write:{}", layout.name()),
+                            format!("{damage} bytes of the spare capacity behind the buffer were overwritten during episode {}", n - 1),
+                        );
+                        return;
+                    }
                 }
                 let (addr, len, _cap) = owner.addr_len_cap();
                 let cur_tag = owner.tag();
@@ -847,6 +862,21 @@ macro_rules! exec_layout {
                             return;
                         }
                     }
+                }
+            }
+            if !ctx.failed() {
+                ctx.checked();
+                let damage = owner.canary_damage();
+                if damage > 0 {
+                    ctx.fail(
+                        "out-of-bounds-write",
+                        &format!("out-of-bounds-write:{}", layout.name()),
+                        format!("{damage} bytes of the spare capacity behind the buffer were overwritten during the last episode"),
+                    );
+                    return;
+                }
+                if extra_cap > 0 {
+                    ctx.probe("canary-behind-the-buffer-checked");
                 }
             }
             ev!(ctx, "end: buffer is {} x {}", names[owner.tag() as usize], owner.len());
